@@ -80,11 +80,19 @@ pub fn gen_transform(rng: &mut Rng, max_log: u32) -> TransformParams {
         _ => rng.range(0, size),
     };
     let max_sd = 65536 - size;
-    let skew_delta = match rng.below(6) {
+    let skew_delta = match rng.below(7) {
         0 => 0,
         1 => (pos + size).min(max_sd),
         2 => max_sd,
         3 => (size * rng.below(65536 / size)).min(max_sd),
+        4 => {
+            // a layer's twiddle index (distance + skew_delta - 1) lands on a
+            // sentinel entry of the skew table (index 2^j - 1) although
+            // skew_delta is not zero
+            let d = (size >> rng.below(n as usize + 1)).max(1);
+            let j = rng.range(d.trailing_zeros() as usize + 1, 16);
+            ((1usize << j) - d).min(max_sd)
+        }
         _ => rng.range(0, max_sd),
     };
     TransformParams {
